@@ -315,6 +315,7 @@ func c09X4(r *Run, rep *core.Report) {
 			}
 		})
 	}
+	defaultCtorFlow(r, rep, "C09.X4")
 	// NewDefault variants: fields by name
 	for _, f := range r.P.Funcs {
 		if f.Pkg != r.P.Cache || f.Parent() != nil || f.Signature.Recv() != nil || f.Signature.Params().Len() < 2 {
@@ -338,4 +339,69 @@ func c09X4(r *Run, rep *core.Report) {
 			rep.Check(okv, "C09.X4", fn(f)+" passes "+p.Name(), r.P.InstrPos(in), "duration argument "+p.Name()+" goes to config."+a.Field, "duration argument "+p.Name()+" is written to config."+a.Field+": default expiration and cleanup interval are swapped")
 		})
 	}
+}
+
+// defaultCtorFlow: a constructor that takes the two durations as arguments (the NewDefault family) hands exactly
+// those arguments on: the store of each duration parameter into the config it builds is executed on every path to
+// the constructor's return - never skipped for some values (a zero or negative cleanup interval must reach the
+// config as it is: it is what disables the janitor; a non-positive default expiration means 'never expires').
+func defaultCtorFlow(r *Run, rep *core.Report, rule string) {
+	n := 0
+	for _, f := range r.P.Funcs {
+		if f.Pkg != r.P.Cache || f.Parent() != nil || f.Signature.Recv() != nil {
+			continue
+		}
+		var durs []*ssa.Parameter
+		for _, q := range f.Params {
+			if strings.HasSuffix(typeName(q.Type()), "Duration") {
+				durs = append(durs, q)
+			}
+		}
+		if len(durs) < 2 {
+			continue
+		}
+		stores := map[*ssa.Parameter][]*ssa.Store{}
+		builds := false
+		core.Instrs(f, func(in ssa.Instruction) {
+			st, ok := in.(*ssa.Store)
+			if !ok {
+				return
+			}
+			a := core.Addr(st.Addr)
+			if !strings.HasPrefix(a.Owner, "Config") {
+				return
+			}
+			builds = true
+			if p, isP := core.StripConv(st.Val).(*ssa.Parameter); isP {
+				stores[p] = append(stores[p], st)
+			}
+		})
+		if !builds {
+			continue // passes its arguments on to another constructor: covered by the role-keeping rule
+		}
+		rep.Fn(fn(f))
+		for _, q := range durs {
+			n++
+			cons := fn(f) + " hands " + fmt.Sprintf("a%d", paramIndexOf(f, q)) + " to the config"
+			if len(stores[q]) == 0 {
+				rep.Fail(rule, cons, r.P.Pos(f.Pos()), "the duration argument "+q.Name()+" is never written to the config the constructor builds")
+				continue
+			}
+			all := false
+			for _, st := range stores[q] {
+				dom := true
+				core.Instrs(f, func(in ssa.Instruction) {
+					if ret, ok := in.(*ssa.Return); ok && !core.Dominates(st, ret) {
+						dom = false
+					}
+				})
+				if dom {
+					all = true
+				}
+			}
+			rep.Check(all, rule, cons, r.P.InstrPos(stores[q][0]), "the argument is stored into the config on every path to the return",
+				"the duration argument "+q.Name()+" reaches the config only on some paths (it is overridden by a default for other values): a non-positive cleanup interval no longer disables the janitor / a non-positive default expiration is replaced")
+		}
+	}
+	rep.MinCount(rule, "duration arguments of default constructors", n, 4)
 }
